@@ -523,7 +523,7 @@ pub fn gen_random(rng: &mut Rng, n: usize, stack: bool, wild: bool) -> AProg {
             7 => Some(St::Str(reg(rng), reg(rng), fld(rng, 6, wild))),
             8 => Some(St::Not(reg(rng), reg(rng))),
             9 => Some(if rng.chance(1, 2) { St::Ret } else { St::Rti }),
-            10 => Some(St::Trap(crate::asmgen::field_value(rng, 0, 255, wild) as u16)),
+            10 => Some(St::Trap(if wild { crate::asmgen::field_value(rng, 0, 255, true) as u16 } else { rng.below(256) as u16 })),
             11 => Some(St::Named(reg(rng))),
             12 => Some(St::Fill(if rng.chance(1, 2) { rng.u16() } else { *rng.pick(&[0, 1, 0x7FFF, 0x8000, 0xFFFF]) })),
             13 => Some(St::Blkw(if wild && rng.chance(1, 4) { *rng.pick(&[254, 255, 256, 257, 510, 511, 512, 513, 1023, 1024, 1025]) } else { rng.below(5) as u16 })),
